@@ -34,6 +34,8 @@ RULE = ("one case = one generated Modelica model (parameters valued/free/depende
         "parameter-dependent and constant attributes, arrays with `each` and element-wise attributes, signed alias "
         "chains, 1-3 delays with constant/parameter/expression durations, states, inputs, outputs, constants) x one "
         "simplification option set x {cache, codegen}; fresh compile vs cache-served model at 2 exact points; "
+        "about a third of the cases then call again with one option key flipped (cache on disk written for the first set) "
+        "and compare with a fresh compile under the second set; "
         "non-trivial = compiled, served from the cache, and has an MX attribute, an array, an alias or a delay; "
         "distinct = distinct (text, options, mode)")
 TRUSTED = ["pickle and CasADi (de)serialisation of Function objects; gcc + ca.external for codegen (exercised, not modelled)",
@@ -147,11 +149,29 @@ def check_case(ctx, case, drv, n=[0]):
             ctx.violation("cache-served model differs from the fresh compile: " + df[0], case,
                           expected="fresh: see paths", observed=df)
             return
-        if not _names_unique(m1):
-            ctx.count("duplicate-names-skipped")
-            return
-        if drv is not None and served:
+        if drv is not None and served and _names_unique(m1):
             correspond(ctx, case, drv, d, name, m1, m2, seed)
+        elif served:
+            ctx.count("duplicate-names-skipped")
+        del m1, m2
+        # ---- "for every option set": the cache now on disk was written for `opts`; a call with another
+        # option set on the same folder must match a fresh compile under *that* set
+        if case.get("opts2") is not None:
+            o2 = dict(case["opts2"])
+            o2[mode] = True
+            ok3, m3, msg3 = G.outcome(api.transfer_model, d, name, dict(o2))
+            rok, rm, rmsg = G.reference_compile(api, d, name, o2)
+            ctx.count("second-option-set:" + (type(m3).__name__ if ok3 else "raised"))
+            if not ok3 or not rok:
+                if ok3 != rok or (not ok3 and m3 != rm):
+                    ctx.violation("after a cache was written for other options: transfer_model %s, a fresh compile %s" % (
+                        "returned a model" if ok3 else "raised " + str(m3), "returned a model" if rok else "raised " + str(rm)),
+                        case, expected=str(rm) if not rok else "model", observed=str(m3) if not ok3 else "model")
+                return
+            df = G.diff(G.signature(rm, NPTS, seed), G.signature(m3, NPTS, seed))
+            if df:
+                ctx.violation("a cache written for one option set was served for another (%s): %s" % (
+                    type(m3).__name__, df[0]), case, expected="fresh compile under the second option set", observed=df)
     finally:
         shutil.rmtree(d, ignore_errors=True)
 
@@ -276,10 +296,17 @@ def _rows_of(dicts, i):
 
 
 # ---------------------------------------------------------------------------------------------
+SMALL_ARRAY_CONST = "model M\n  Real x;\n  Real w[2];\nequation\n  der(x) = -x;\n  w[1] = 4.0;\n  w[2] = x;\nend M;\n"
+
+
 def gen_case(rng, mode="cache"):
     gm = G.gen_model(rng)
-    return {"name": gm["name"], "text": gm["text"], "features": gm["features"], "opts": G.gen_options(rng),
-            "mode": mode, "seed": rng.randrange(1000)}
+    c = {"name": gm["name"], "text": gm["text"], "features": gm["features"], "opts": G.gen_options(rng),
+         "mode": mode, "seed": rng.randrange(1000)}
+    r = rng.random()
+    if r < (0.3 if mode == "cache" else 0.5):
+        c["opts2"] = G.flip(c["opts"], rng.choice(G.FLIP_KEYS[:8]))
+    return c
 
 
 def fixed_cases():
@@ -306,7 +333,7 @@ def run(ctx):
         check_case(ctx, c["case"] if "case" in c else c, drv)
     for c in fixed_cases():
         check_case(ctx, c, drv)
-    n_cache, n_codegen = (400, 10) if quick else (4000, 160)
+    n_cache, n_codegen = (400, 6) if quick else (4000, 120)
     # codegen cases are spread over the run so that a time-out keeps both kinds
     every = max(1, n_cache // max(1, n_codegen))
     done_cg = 0
@@ -315,11 +342,14 @@ def run(ctx):
             ctx.notes.append("generated cases stopped by the time budget after %d of %d" % (i, n_cache))
             break
         check_case(ctx, gen_case(ctx.rng, "cache"), drv)
-        if i % every == 0 and done_cg < n_codegen:
+        if (i < 2 or i % every == 0) and done_cg < n_codegen:
             done_cg += 1
             c = gen_case(ctx.rng, "codegen")      # always drawn: the case sequence depends on the seed only
             if done_cg == 1:
                 c.update(text=TARGETED[2][0], opts=dict(TARGETED[2][1]), features=["targeted"])
+            if done_cg == 2:    # expand_mx changes the compile of this model, and only codegen leaves it to the caller
+                base = {"expand_vectors": True, "eliminate_constant_assignments": True}
+                c.update(text=SMALL_ARRAY_CONST, opts=base, opts2=G.flip(base, "expand_mx"), features=["targeted"])
             if ctx.time_left() > (12 if quick else 5):
                 check_case(ctx, c, drv)
             else:
